@@ -18,6 +18,13 @@ HARNESS = os.path.join(VERIF, "harness")
 EVIDENCE = os.path.join(VERIF, "evidence")
 REPLAYS = os.path.join(VERIF, "replays")
 REPO = "/repo"
+# development aid only (seed testing in parallel): build against another checkout. The registered
+# commands never set it, so they always rebuild from /repo's working tree.
+ALT_REPO = os.environ.get("VERIF_ALT_REPO")
+if ALT_REPO:   # nothing such a run produces is evidence about /repo
+    EVIDENCE = os.path.join(ALT_REPO, ".verif-alt", "evidence")
+    REPLAYS = os.path.join(ALT_REPO, ".verif-alt", "replays")
+    os.makedirs(EVIDENCE, exist_ok=True)
 TLA_CP = "/opt/veriftools/tla/tla2tools.jar:/opt/veriftools/tla/CommunityModules-deps.jar"
 
 GOENV = dict(os.environ, GOFLAGS="-mod=mod", GOPROXY="off", GOSUMDB="off", GOTOOLCHAIN="local",
@@ -64,8 +71,16 @@ def build_driver(scratch):
     gosum = os.path.join(HARNESS, "go.sum")
     if not os.path.exists(gosum):
         shutil.copy(os.path.join(REPO, "go.sum"), gosum)
-    p = subprocess.run(["go", "build", "-tags", "verif", "-o", out, "./cmd/verifdrv"],
-                       cwd=HARNESS, env=GOENV, capture_output=True, text=True)
+    cmd = ["go", "build", "-tags", "verif", "-o", out, "./cmd/verifdrv"]
+    if ALT_REPO:
+        mf = os.path.join(scratch, "alt.mod")
+        with open(os.path.join(HARNESS, "go.mod")) as f:
+            txt = f.read().replace("=> /repo", "=> " + ALT_REPO)
+        with open(mf, "w") as f:
+            f.write(txt)
+        shutil.copy(gosum, os.path.join(scratch, "alt.sum"))
+        cmd.insert(2, "-modfile=" + mf)
+    p = subprocess.run(cmd, cwd=HARNESS, env=GOENV, capture_output=True, text=True)
     if p.returncode != 0:
         raise Inconclusive("driver build failed:\n" + p.stdout + p.stderr)
     return out
